@@ -5,12 +5,14 @@ import (
 	"bytes"
 	"encoding/json"
 	"fmt"
+	"io"
 	"math/rand"
 	"os"
 	"os/exec"
 	"path/filepath"
 	"strings"
 	"sync"
+	"time"
 
 	"github.com/runreveal/pql"
 	"github.com/runreveal/pql/parser"
@@ -283,6 +285,24 @@ func stringScript(rng *rand.Rand) *Script {
 	return s
 }
 
+// oneLineScript: several statements on one line (one flush of the tool's
+// buffer): queries on back-quoted and plain tables, lets, and uses of those lets.
+func oneLineScript(rng *rand.Rand) *Script {
+	s := &Script{}
+	pool := []string{"`storm events` | count", "`T;1` | take 1", "let lim = 5", "Other | where n > lim", "let lim = lim + 1", "`let` | take lim", "T | top lim by a", "let s = 'x;y'", "T | where c == s", "!", "T | bogus", "let = 1", "U | count"}
+	n := 3 + rng.Intn(5)
+	for i := 0; i < n; i++ {
+		s.Stmts = append(s.Stmts, pool[rng.Intn(len(pool))])
+		s.Seps = append(s.Seps, []string{"; ", ";", " ; ", ";\t"}[rng.Intn(4)])
+	}
+	last := len(s.Stmts) - 1
+	s.Seps[last] = []string{";\n", ";", "\n", ""}[rng.Intn(4)]
+	if isLet(s.Stmts[last]) {
+		s.Seps[last] = ";\n"
+	}
+	return s
+}
+
 // longScript: hundreds of statements, most of them spread over several lines,
 // several times the size of any line or read buffer.
 func longScript(rng *rand.Rand) *Script {
@@ -331,6 +351,9 @@ func genScript(rng *rand.Rand) *Script {
 		if rng.Intn(4) == 0 {
 			return longScript(rng)
 		}
+		if rng.Intn(2) == 0 {
+			return oneLineScript(rng)
+		}
 		return stringScript(rng)
 	}
 	n := 1 + rng.Intn(6)
@@ -377,10 +400,27 @@ type result struct {
 func runCLI(cli string, args []string, stdin string, dir string) result {
 	cmd := exec.Command("timeout", append([]string{"-s", "KILL", "30", cli}, args...)...)
 	cmd.Dir = dir
-	cmd.Stdin = strings.NewReader(stdin)
 	var so, se bytes.Buffer
 	cmd.Stdout, cmd.Stderr = &so, &se
-	err := cmd.Run()
+	var err error
+	if chunks := stdinChunks(stdin); len(chunks) > 1 {
+		// standard input arrives in several writes with pauses in between (a
+		// pipe fed by another program): reads return less than was asked for
+		pw, perr := cmd.StdinPipe()
+		if perr == nil && cmd.Start() == nil {
+			for _, ch := range chunks {
+				io.WriteString(pw, ch)
+				time.Sleep(15 * time.Millisecond)
+			}
+			pw.Close()
+			err = cmd.Wait()
+		} else {
+			err = fmt.Errorf("cannot start")
+		}
+	} else {
+		cmd.Stdin = strings.NewReader(stdin)
+		err = cmd.Run()
+	}
 	r := result{stdout: so.String(), stderr: se.String()}
 	if err != nil {
 		if ee, ok := err.(*exec.ExitError); ok {
@@ -393,6 +433,30 @@ func runCLI(cli string, args []string, stdin string, dir string) result {
 		}
 	}
 	return r
+}
+
+// stdinChunks cuts every third standard input of some length into 2-3 pieces
+// (decided by its content, so that a replay does the same).
+func stdinChunks(s string) []string {
+	if len(s) < 8 {
+		return nil
+	}
+	h := 0
+	for i := 0; i < len(s); i++ {
+		h = h*31 + int(s[i])
+	}
+	if h < 0 {
+		h = -h
+	}
+	if h%3 != 0 {
+		return nil
+	}
+	a := 1 + h/3%(len(s)-2)
+	b := a + (h/7)%(len(s)-a)
+	if b == a {
+		return []string{s[:a], s[a:]}
+	}
+	return []string{s[:a], s[a:b], s[b:]}
 }
 
 func stderrLines(s string) int {
